@@ -483,3 +483,73 @@ func ruleC08AsArrayIdentity(c *Ctx) {
 	}
 	c.Check(len(why) == 0, "c08.source-identity", "AsArray", c.P.Pos(f.Pos()), "[]any => itself (single path), Map => [itself]", strings.Join(uniq(why), "; "))
 }
+
+func init() { register("C08", ruleC08AliasNesting) }
+
+// ruleC08AliasNesting: a table alias does not flatten the dimensions of the source.
+func ruleC08AliasNesting(c *Ctx) {
+	c.Doc("c08.alias-nesting", "alias wrapper (ProcessAlias): an element that is itself an array is replaced, at the same position, by the wrapper applied to that inner array with the same alias (the per-inner-array execution of exec then still sees arrays); every other element becomes {alias: element} — wrapping an inner array as {alias: array} hides the dimension and the query runs once over the outer list")
+	f := c.P.Func(modPath, "ProcessAlias")
+	if f == nil {
+		c.Unknown("c08.alias-nesting", "ProcessAlias", "-", "anchor lost")
+		return
+	}
+	c.Fn("ProcessAlias")
+	loops := rangeLoops(f)
+	if len(loops) != 1 {
+		c.Unknown("c08.alias-nesting", "ProcessAlias", c.P.Pos(f.Pos()), fmt.Sprintf("%d loops", len(loops)))
+		return
+	}
+	lp := loops[0]
+	as := ""
+	for _, p := range f.Params {
+		if p.Type().String() == "string" {
+			as = p.Name()
+		}
+	}
+	paths, err := WalkFrom(f, lp.body, lp.header, WalkCfg{StopAt: func(b *ssa.BasicBlock) bool { return b == lp.header }, MaxVisits: 1})
+	if err != nil {
+		c.Unknown("c08.alias-nesting", "ProcessAlias", c.P.Pos(f.Pos()), err.Error())
+		return
+	}
+	var why []string
+	nArr, nRow := 0, 0
+	for _, p := range paths {
+		if p.Exit != "stop" {
+			continue
+		}
+		isArr, tested := false, false
+		for k, v := range p.Asg {
+			if kt := p.KeyTerm[k]; kt != nil && kt.Op == "ext" && kt.Name == "1" && kt.Args[0].Op == "assertok" && kt.Args[0].Name == "[]any" && elemOfLoop(kt.Args[0].Args[0], lp) {
+				tested, isArr = true, isTrueC(v)
+			}
+		}
+		if !tested {
+			why = append(why, "an element is wrapped without testing whether it is an inner array: `FROM data AS d` over an array of arrays loses the nesting")
+			continue
+		}
+		// the store into the result slot
+		var stored *Term
+		for _, e := range p.Effects {
+			if e.Kind == "store" && len(e.Args) == 2 && e.Args[0].Op == "index" {
+				stored = e.Args[1]
+			}
+		}
+		if isArr {
+			nArr++
+			a, ok := callArgs(stored, "ProcessAlias")
+			if stored == nil || !ok || len(a) != 2 || !strings.Contains(a[0].String(), "assertok[[]any]") || !(a[1].Op == "param" && a[1].Name == as) {
+				why = append(why, "an inner array is replaced by "+termStr(stored)+" instead of the wrapper applied to it with the same alias")
+			}
+		} else {
+			nRow++
+			if stored == nil || !(stored.Op == "make" || strings.Contains(stored.String(), "make:map")) {
+				why = append(why, "a row is replaced by "+termStr(stored)+" instead of a fresh {alias: row}")
+			}
+		}
+	}
+	if nArr == 0 || nRow == 0 {
+		why = append(why, fmt.Sprintf("iteration paths: inner array=%d row=%d", nArr, nRow))
+	}
+	c.Check(len(why) == 0, "c08.alias-nesting", "ProcessAlias", c.P.Pos(f.Pos()), "inner arrays recurse with the same alias; rows are wrapped", strings.Join(uniq(why), "; "))
+}
